@@ -115,6 +115,27 @@ fn check_code16(ctx: &mut Ctx, field: &str, attr: u16, x: u16, table: &[(u16, &s
         (Out::Err(e), true) => ctx.violate(format!("C16:{}:assigned-rejected", field), format!("assigned code {} was rejected: {}", x, errs_str(e)), w_input(&msg, Some(SOpts::STRICT))),
         (other, _) => ctx.violate(format!("C16:{}:{}", field, other.class()), format!("code {}: {}", x, out_str(other)), w_input(&msg, Some(SOpts::STRICT))),
     }
+    // the same code followed by surplus payload octets (total payload 255..258, 511..514, 1016,
+    // 1017): a fixed-size field must be judged the same whatever follows it in its AVP
+    if field != "error_type" {
+        let total = *ctx.rng.pick(&[255usize, 256, 257, 258, 511, 512, 513, 514, 1016, 1017]);
+        let mut long = payload.clone();
+        long.resize(total, 0);
+        let (m2, out2, _) = decode_second(attr, &long);
+        ctx.rep.bucket("surplus_payload.compared");
+        let same = match (&out, &out2) {
+            (Out::Ok(a), Out::Ok(b)) => a == b,
+            (Out::Err(_), Out::Err(_)) => true,
+            _ => false,
+        };
+        if !same && !out.abnormal() {
+            ctx.violate(
+                format!("C16:{}:verdict-depends-on-surplus-payload", field),
+                format!("code {} alone gives {} but followed by {} surplus payload octets {}", x, out_str(&out), total - payload.len(), out_str(&out2)),
+                J::obj(vec![("field", J::s(field)), ("code", J::U(x as u64)), ("payload_octets", J::U(total as u64)), ("input_head_hex", J::hex(&m2[..m2.len().min(40)]))]),
+            );
+        }
+    }
     // the same code through every other entry point must get the same verdict and value:
     // bare AVP list, public per-type decoder, and reveal of a hidden AVP carrying it
     let rec = wire::raw_record(attr, false, 0, &payload, true);
